@@ -15,9 +15,16 @@ import argparse
 from traceback import print_exc
 import gzip
 
-from .file_utils import dump_json_atomically
-
 logger = logging.getLogger('IsoQuant')
+
+
+def dump_json_atomically(obj, file_path):
+    # several IsoQuant processes may share these files: write a temporary file in the same folder and rename it,
+    # so that a concurrent reader never observes a truncated or half-written file
+    tmp_path = "%s.%d.tmp" % (file_path, os.getpid())
+    with open(tmp_path, 'w') as f_out:
+        json.dump(obj, f_out)
+    os.replace(tmp_path, file_path)
 
 
 def db2gtf(db, gtf, _=None):
